@@ -1,5 +1,6 @@
 import TdVerif.Sexp
 import TdVerif.Model.C13Module
+import TdVerif.Model.C13Params
 
 namespace TdVerif.Drive
 open TdVerif Sexp TdVerif.C13
@@ -57,7 +58,9 @@ partial def stmt? : Sexp → Option Stmt
   | .atom "nop" => some .nop
   | .atom "raise" => some .raise
   | .list (.atom "block" :: p :: m :: body) => do
-      pure (.block (← td? p) (← asNat? m) (← body.mapM stmt?))
+      pure (.block (← td? p) (← asNat? m) false (← body.mapM stmt?))
+  | .list (.atom "blockt" :: p :: m :: body) => do      -- the parameter tensordict is a temporary
+      pure (.block (← td? p) (← asNat? m) true (← body.mapM stmt?))
   | .list (.atom "try" :: body) => do pure (.tryExcept (← body.mapM stmt?))
   | _ => none
 
@@ -133,6 +136,16 @@ def handleC13 (cmd : String) (args : List Sexp) : Option Sexp :=
   | "c13.exec_old", [hp, .list prog] => do
       let ms ← heap? hp; let prog ← prog.mapM stmt?
       pure (execAns ms.length (execOld ⟨toHeap ms, []⟩ prog))
+  | "c13.reset_params", leaves => do
+      -- each leaf: ((path components…) p|t) ; answer: (parameter names in registry order) (buffer names)
+      let ls ← leaves.mapM (fun l => match l with
+        | .list [.list comps, .atom k] => do
+            let comps ← comps.mapM asAtom?
+            pure (comps, (⟨0, k == "p"⟩ : Tn))
+        | _ => none)
+      let ls := ls.zipIdx.map (fun (e, i) => (e.1, ({ e.2 with id := i } : Tn)))
+      let r := Params.resetParams ls
+      pure (.list [.list (r.1.map (fun e => .atom e.1)), .list (r.2.map (fun e => .atom e.1))])
   | _, _ => none
 
 end TdVerif.Drive
